@@ -24,9 +24,10 @@
      says;
    - the interceptor is a function (source, destination) -> new destination or
      rejection; the configuration [cfg] is an explicit argument everywhere;
-   - [forward_gen guard]: guard = true is the code after D-17d ([len > 0]),
-     guard = false the code before it ([!= nil]) - kept only for the witness
-     that the old code could crash;
+   - [forward_gen ghdr gnext]: the route decision with / without the guards the
+     code puts in front of its panic-capable operations on peer data (nil
+     header dereference; index into an empty return route - gnext = false is
+     the code before D-17d); the code is [forward_gen true true];
    - every state carries the history [log]. *)
 From Coq Require Import List ZArith Bool Lia.
 Import ListNotations.
@@ -51,7 +52,19 @@ Inductive fwd_res :=
 | FCrash                        (* index out of range (only the code before D-17d) *)
 | FRoute (d : Z) (e' : env).    (* routed to name d as e' *)
 
-Definition forward_gen (guard : bool) (cf : cfg) (src : Z) (e : env) : fwd_res :=
+(* The operations of forwardRpc that can panic on peer-controlled data, each with the guard the code puts in front of
+   it (proxy.go at /repo HEAD):
+     - rpc.Header.Source, l.136: nil-pointer dereference when the envelope has no header; guard [ghdr]: the test
+       "rpc.Header == nil ||" evaluated first on the same line;
+     - rpc.Header.ProxyNext[len-1] and the re-slice [0:len-1], l.162-163: index out of range on an empty list;
+       guard [gnext]: "len(rpc.Header.ProxyNext) > 0", l.161 (before the D-17d repair: "!= nil").
+   [forward_gen ghdr gnext]: the function with / without each guard; without a guard the offending input gives
+   FCrash. The code is [forward_gen true true]. (The other panic-capable operations of proxy.go are not functions of
+   peer data: the table p.clients is read and written only under p.mutex, l.80-82, 95 with 168-173, 116-122 - in the
+   model: inside atomic steps; proxy.go closes no channel; c.conn is assigned, l.235, before the loops that use it,
+   l.189 / 211, are started.) *)
+Definition forward_gen (ghdr gnext : bool) (cf : cfg) (src : Z) (e : env) : fwd_res :=
+  if negb ghdr && negb (e_hdr e) then FCrash else
   if negb (e_hdr e) || negb (e_src e =? src) then FBad
   else match cf_icp cf (e_src e) (e_dst e) with
        | None => FReject
@@ -59,12 +72,12 @@ Definition forward_gen (guard : bool) (cf : cfg) (src : Z) (e : env) : fwd_res :
            let rec' := e_rec e ++ [cf_name cf] in
            match e_next e with
            | None => FRoute d1 (mkEnv true (e_src e) d1 rec' None (e_pay e))
-           | Some [] => if guard then FRoute d1 (mkEnv true (e_src e) d1 rec' (Some []) (e_pay e)) else FCrash
+           | Some [] => if gnext then FRoute d1 (mkEnv true (e_src e) d1 rec' (Some []) (e_pay e)) else FCrash
            | Some (x :: l) => FRoute (last (x :: l) 0) (mkEnv true (e_src e) d1 rec' (Some (removelast (x :: l))) (e_pay e))
            end
        end.
 
-Definition forward := forward_gen true.
+Definition forward := forward_gen true true.
 
 (* ---------- state ---------- *)
 Inductive dlpc := DLNone | DLDial | DLOffer | DLDead.
